@@ -96,6 +96,23 @@ func buildC02World(t testing.TB, r *Reporter) (*World, []c02Obj) {
 	w.Data("k3/d.iso", dplain)
 	objs = append(objs, c02Obj{path: "/k3/d.iso", kind: "3k3y-dec", obj: memObj("3k3y-dec", zeroMask(dplain), nil), bounds: []int64{0, 0xF70, 0x1070, 2048, 4096, 6 * 2048}})
 	w.File("other.bin", 777, 40)
+	// generated images of directories that themselves hold disc images and key files: the members are stored byte
+	// for byte (the reference is built by the generator on the raw filesystem), never decrypted or masked
+	for _, d := range []string{"k3", "PS3ISO"} {
+		v, err := openVISO(w.Root, "/"+d, false)
+		if err != nil {
+			r.Violation("C02:image-create-failed", "generated image of /"+d+" could not be created: "+err.Error(), nil)
+			continue
+		}
+		st, _ := v.Stat()
+		img, err := canonicalImage(v, 1<<20, st.Size()+1<<20)
+		v.Close()
+		if err != nil {
+			r.Violation("C02:image-read-failed", "generated image of /"+d+" could not be read: "+err.Error(), nil)
+			continue
+		}
+		objs = append(objs, c02Obj{path: "/***DVD***/" + d, kind: "image-of-disc-images", obj: memObj("image", img, isoVarMask(false)), bounds: structuralBoundaries(img)})
+	}
 	return w, objs
 }
 
@@ -183,7 +200,7 @@ func c02Geometry(bounds []int64, size int64) []geo {
 func TestC02(t *testing.T) {
 	r := NewReporter(t)
 	defer r.Done()
-	r.Rule("objects: plain files of 9 boundary sizes, sparse 4 GiB+5 file, generated image (DVD and PS3 mode), redump view (adjacent key), 3k3y encrypted and decrypted views; histories OpenFile.r1 and OpenFile.r1.x.r2 with r in {ordinary, critical} x (offset,limit) from structural boundaries +-1 x lengths {0,1,2,2047,2048,2049,65536,65537,to-boundary+-1} incl. offset >= size, x in {none, Stat, OpenDir+ReadDir, OpenFile(other)+OpenFile(obj)}; oracle = announced size/mtime and exact bytes/length/connection state; distinct by (object, history)")
+	r.Rule("objects: plain files of 9 boundary sizes, sparse 4 GiB+5 file, generated image (DVD and PS3 mode; also of directories holding encrypted images and key files), redump view (adjacent key), 3k3y encrypted and decrypted views; histories OpenFile.r1 and OpenFile.r1.x.r2 with r in {ordinary, critical} x (offset,limit) from structural boundaries +-1 x lengths {0,1,2,2047,2048,2049,65536,65537,to-boundary+-1} incl. offset >= size, x in {none, Stat, OpenDir+ReadDir, OpenFile(other)+OpenFile(obj)}; oracle = announced size/mtime and exact bytes/length/connection state; distinct by (object, history)")
 	w, objs := buildC02World(t, r)
 	defer w.Cleanup()
 	special := map[string]*roObj{}
